@@ -1,16 +1,21 @@
+import collections
 import copy
 from kvfile import KVFile
 
 
 def saver(resource, db, batch_size):
-    gen = db.insert_generator(
-        (('{:08x}'.format(idx), row)
-         for idx, row
-         in enumerate(resource)),
-        batch_size=batch_size
-    )
-    for _, row in gen:
-        yield row
+    # The store serialises a value only after it has been yielded, so it is
+    # given a private snapshot of each row while the original row goes
+    # downstream (later steps often edit rows in place).
+    originals = collections.deque()
+
+    def snapshots():
+        for idx, row in enumerate(resource):
+            originals.append(row)
+            yield '{:08x}'.format(idx), copy.deepcopy(row)
+
+    for _ in db.insert_generator(snapshots(), batch_size=batch_size):
+        yield originals.popleft()
 
 
 def loader(db):
